@@ -1,6 +1,7 @@
 package main
 
 import (
+	"os"
 	"fmt"
 	"go/ast"
 	"go/token"
@@ -242,7 +243,27 @@ func (v *FV) lockDeclFor(fr *Frame, cc *ssa.CallCommon) (*LockDecl, Term, types.
 	if ld == nil {
 		return nil, "", nil
 	}
-	return ld, v.val(fr, fa.X).T, stT
+	return ld, v.canonOwner(fr, fa.X), stT
+}
+
+// canonOwner: the term of a lock owner / protected object. A receiver that is captured by a closure lives in a
+// cell that is written once (at entry); every load of it yields a new name for the same value - use the stored value.
+func (v *FV) canonOwner(fr *Frame, x ssa.Value) Term {
+	if u, ok := x.(*ssa.UnOp); ok && u.Op == token.MUL {
+		if al, ok := u.X.(*ssa.Alloc); ok && cellIsFinal(al) && al.Referrers() != nil {
+			for _, r := range *al.Referrers() {
+				if s, ok := r.(*ssa.Store); ok && s.Addr == al {
+					if _, known := fr.vals[s.Val]; known {
+						return v.val(fr, s.Val).T
+					}
+					if _, isParam := s.Val.(*ssa.Parameter); isParam {
+						return v.val(fr, s.Val).T
+					}
+				}
+			}
+		}
+	}
+	return v.val(fr, x).T
 }
 
 func (v *FV) lockHasDecl(fr *Frame, cc *ssa.CallCommon) bool {
@@ -265,6 +286,9 @@ func (v *FV) execLock(fr *Frame, st *State, cc *ssa.CallCommon, kind string, pos
 		env.pkg = p
 	}
 	hk := ld.Owner + "." + ld.Field + "@" + owner
+	if os.Getenv("GOVC_DEBUGLOCK") != "" {
+		fmt.Fprintln(os.Stderr, "execLock", kind, hk, pos)
+	}
 	if kind == "lock" || kind == "rlock" {
 		v.countSection(fr, st, ld, owner)
 	}
